@@ -8,5 +8,8 @@ import RpylibModel.Proofs.C06
 import RpylibModel.ProofsGen.C06Budget
 import RpylibModel.Proofs.C07
 import RpylibModel.Proofs.C08
+import RpylibModel.Proofs.C09
+import RpylibModel.Proofs.C11
+import RpylibModel.Proofs.C12
 import RpylibModel.Proofs.C13
 import RpylibModel.Proofs.C14
